@@ -3,6 +3,8 @@ import Chain33Model.Proofs.C06Map
 import Chain33Model.Proofs.C06Iter
 import Chain33Model.Proofs.C06Badger
 import Chain33Model.Proofs.C06BadgerStep
+import Chain33Model.Proofs.C06Batch
+import Chain33Model.Proofs.C06Session
 /-!
 C06 — Key-value backends agree with an ordered-map model.  Property theorems only
 (helpers live in `Proofs/C06*.lean`).  The model (`Model/C06.lean`) is tied to
@@ -200,6 +202,58 @@ example : (((Iter.mk' [([1], [1]), ([3], [3]), ([5], [5])] [] (some [5]) true).s
     ∧ (((Iter.mk' [([1], [1]), ([3], [3]), ([5], [5])] [] (some [5]) false).seek [2]).1.cur = some ([3], [3])) := by
   decide
 
+/-! ### the batch wrappers refine the specification (`memBatch`, `goLevelDBBatch`, `GoBadgerDBBatch`)
+
+`C06.Batch` is the implementation-side model: the `writes` list of `memBatch` (`Set` appends
+`kv{cloneByte(k), cloneByte(v)}` — `cloneByte(nil)` is non-nil —, `Delete` appends `kv{k, nil}`,
+`Write` deletes where `kv.v == nil` and sets otherwise, returning only the last error), `Reset`,
+and the `ValueSize`/`ValueLen` counters.  It is tied to all three backends by the differential run
+(every `batch` line: error, `ValueSize`, `ValueLen`, then the state through `get`/iterators). -/
+
+/-- **A batch built through the `Batch` interface and written applies `applyBatch` of its calls, in
+call order**: `Set(k, v)` is a write of `v` — a *nil* `v` is stored as the empty value, it is not a
+delete —, `Delete(k)` a delete, `Reset()` forgets everything buffered before it. -/
+theorem batch_impl_refines (calls : List BCall) (m : Map) :
+    ((calls.foldl Batch.call {}).write m).1 = applyBatch m (callsToOps calls) := by
+  rw [Batch.write_state, toBOps_calls, callsToOps_eq]
+  rfl
+
+/-- in particular (the shape of the seeded regression): after `Set(k, nil)` — alone, or after a
+`Delete(k)` in the same batch — the key is present with the empty value; `Delete(k)` last removes it. -/
+theorem batch_set_nil_is_stored {m : Map} (hs : Sorted m) (k : Bytes) :
+    get ((([BCall.set k none]).foldl Batch.call {}).write m).1 k = some []
+    ∧ get ((([BCall.delete k, BCall.set k none]).foldl Batch.call {}).write m).1 k = some []
+    ∧ get ((([BCall.set k none, BCall.delete k]).foldl Batch.call {}).write m).1 k = none := by
+  refine ⟨?_, ?_, ?_⟩ <;>
+    (rw [batch_impl_refines, batch_in_order hs]; simp [callsToOps, storedValue, lastWrite])
+
+/-- `Reset()` discards the buffered calls and zeroes the counters. -/
+theorem batch_reset_discards (pre post : List BCall) :
+    (pre ++ BCall.reset :: post).foldl Batch.call {} = post.foldl Batch.call {} :=
+  calls_after_reset {} pre post
+
+/-- `memBatch.Write` returns the error of its *last* write only: an error exactly when that write
+is a delete of a key that is absent once the earlier writes are applied (memdb reports it). -/
+theorem batch_write_error (ws : List (Bytes × Option Bytes)) (kv : Bytes × Option Bytes) (m : Map) :
+    (({ writes := ws ++ [kv] } : Batch).write m).2
+      = (match kv.2 with
+         | none => (get (applyBatch m ({ writes := ws } : Batch).toBOps) kv.1).isNone
+         | some _ => false) :=
+  Batch.write_error ws kv 0 0 m
+
+/-- `ValueSize` sums `len(key) + len(value)`; `ValueLen` grows by `len(value)` per `Set` and by 1
+per `Delete` (as the code is written — it is not the number of operations). -/
+theorem batch_counters (calls : List BCall) (h : ∀ c ∈ calls, c ≠ .reset) :
+    (calls.foldl Batch.call {}).size = (calls.map callSize).sum
+    ∧ (calls.foldl Batch.call {}).len = (calls.map callLen).sum := by
+  have := counters_noReset {} calls h
+  simpa using this
+
+example : ((([BCall.set [1] (some [7, 7]), .reset, .delete [2], .set [3] none]).foldl Batch.call {}).write
+      [([2], [5])]) = ([([3], [])], false)
+    ∧ (([BCall.delete [2], .set [3] none]).foldl Batch.call {}).size = 2
+    ∧ (([BCall.delete [2], .set [3] none]).foldl Batch.call {}).len = 1 := by decide
+
 /-! ### small facts about the helpers of db.go / go_mem_db.go -/
 
 /-- `itBase.checkKey` never rejects what the range-restricted goleveldb/memdb iterator delivers:
@@ -230,6 +284,53 @@ theorem batch_empty_value_is_stored {m : Map} (hs : Sorted m) (k : Bytes) :
     ∧ get (applyBatch m [.del k, .set k []]) k = some []
     ∧ get (applyBatch m [.set k [], .del k]) k = none := by
   refine ⟨?_, ?_, ?_, ?_⟩ <;> (rw [batch_in_order hs]; simp [lastWrite])
+
+/-! ### every iterator session against the specification -/
+
+/-- **"with rewind, seek and next"**: every session of `Rewind` / `Seek k` / `Next` calls on
+`goLevelDBIt` (GoLevelDB, GoMemDB) is answered like the specification cursor over the in-range
+entries `all` (ascending, or descending for a reverse iterator): `Rewind` shows `all`, `Seek k` shows
+`all.dropWhile (before k)` (forward: from the least key ≥ `k`; reverse: from the greatest key ≤ `k`),
+`Next` drops the head; the answer after each call is (non-empty?, head).  A first `Next` on a fresh
+iterator is `Rewind` forward and finds nothing in reverse. -/
+theorem iter_session_spec {m : Map} (hs : Sorted m) (start : Bytes) (end_ : Option Bytes) (rev : Bool)
+    (steps : List IStep) :
+    (Iter.mk' m start end_ rev).session steps
+      = specSession (if rev then (range m start (effEnd start end_)).reverse
+                     else range m start (effEnd start end_)) rev none steps := by
+  have h := (RelI.init hs start end_ rev).session steps
+  rw [h]
+  cases rev <;> rfl
+
+/-- the shape the reviewers asked for: after any calls, `Seek k` followed by `Next` while valid
+visits exactly `all.dropWhile (before k)`. -/
+theorem seek_then_drain {m : Map} (hs : Sorted m) (start : Bytes) (end_ : Option Bytes) (rev : Bool)
+    (steps : List IStep) (k : Bytes) :
+    let it := steps.foldl (fun (i : Iter) st => (i.step st).1) (Iter.mk' m start end_ rev)
+    Iter.drain (m.length + 1) (it.seek k).1
+      = (if rev then (range m start (effEnd start end_)).reverse
+         else range m start (effEnd start end_)).dropWhile (before rev k) := by
+  intro it
+  have hw : it.WF := Iter.steps_wf (Iter.wf_mk' hs start end_ rev) steps
+  obtain ⟨hents, hrev⟩ := Iter.steps_fields (Iter.wf_mk' hs start end_ rev) steps
+  obtain ⟨hw', hrest, _, he'⟩ := Iter.seek_rest hw k
+  have hlen : (it.seek k).1.rest.length ≤ m.length + 1 := by
+    have h1 := @Iter.rest_length_le (it.seek k).1
+    rw [he', hents] at h1
+    have h2 : (Iter.mk' m start end_ rev).ents.length ≤ m.length := by
+      simp only [Iter.mk', range]; exact List.length_filter_le _ _
+    omega
+  rw [Iter.drain_eq_rest hw' hlen, hrest]
+  have hall : it.all = (if rev then (range m start (effEnd start end_)).reverse
+      else range m start (effEnd start end_)) := by
+    unfold Iter.all; rw [hents, hrev]; cases rev <;> rfl
+  rw [hall, hrev]
+  rfl
+
+example : (Iter.mk' [([1], [1]), ([3], [3]), ([5], [5])] [] none false).session
+      [.seek [2], .next, .next, .next, .rewind]
+    = ([(true, some ([3], [3])), (true, some ([5], [5])), (false, none), (false, none),
+        (true, some ([1], [1]))] : List Obs) := by decide
 
 /-! ### GoBadgerDB iterator (repaired code, /repo commits 0f6664f, 406d120, 5ca8d51)
 
@@ -274,6 +375,14 @@ def BadgerSessionFull : Prop :=
 
 theorem badger_session_eq_leveldb : BadgerSessionFull :=
   fun m start end_ rev steps hs hne => (Sim.init hs hne start end_ rev).session steps
+
+/-- the Badger iterator, too, answers every session like the specification cursor. -/
+theorem badger_session_spec {m : Map} (hs : Sorted m) (hne : ∀ e ∈ m, e.1 ≠ []) (start : Bytes)
+    (end_ : Option Bytes) (rev : Bool) (steps : List IStep) :
+    (BIter.mk' m start end_ rev).session steps
+      = specSession (if rev then (range m start (effEnd start end_)).reverse
+                     else range m start (effEnd start end_)) rev none steps := by
+  rw [badger_session_eq_leveldb m start end_ rev steps hs hne, iter_session_spec hs]
 
 /-- non-vacuity: a reverse session with a fresh `Next`, a seek above the bound, an empty seek
 target, and steps past the end. -/
